@@ -14,8 +14,9 @@ count exactly, cycles end in the marker and `traverse` is total.  "Evaluates bac
 `harness/props/c16.py`.
 
 All theorems hold for an **arbitrary width function** `cw` and any `max_width`, `indent_size`,
-tree size and depth.  `Variant.repaired` is the code with the two pending fixes; `Variant.today`
-is the working tree (witnesses `old_*` show where it breaks the statement).
+tree size and depth.  `Variant.repaired` is the code with the two fixes (`fix:` commits 376cec1, e5d1b9a), which is what
+/repo contains now; `Variant.today` (the name dates from before those commits) is rich 9.10.0 as found
+(witnesses `old_*` show where it breaks the statement).
 -/
 namespace RichModel.C16
 open RichModel RichModel.Pretty
@@ -73,7 +74,7 @@ def tupleOfList : Node :=
     [.mk [] [] ['['] [']'] [] true false true
       [.mk [] ['1'] [] [] [] false false false [], .mk [] ['2'] [] [] [] true false false []]]
 
-/-- **F24 (today's code).**  `([1, 2],)` at width 3: the closing line of the expanded list takes its
+/-- **F24 (rich 9.10.0 as found, before fix 376cec1).**  `([1, 2],)` at width 3: the closing line of the expanded list takes its
 suffix from the node (`last` ⇒ none) instead of the `","` its line was given, the rendered text is
 `(\n    [\n        1,\n        2\n    ]\n)` and the tuple's comma is gone. -/
 theorem old_layout_only_fails :
@@ -349,7 +350,7 @@ theorem pretty_repr_layout_only (cfg : TravCfg) (h : Heap) (hok : HeapOk h) (roo
 
 def cfg0 (v : Variant) : TravCfg := { pyRepr := fun _ s => s, variant := v, maxLength := none, maxString := none }
 
-/-- **F12 (today's code).**  An empty `array('i')` is printed as the literal text
+/-- **F12 (rich 9.10.0 as found, before fix e5d1b9a).**  An empty `array('i')` is printed as the literal text
 `array({_object.typecode!r})` (the f-string prefix is missing in `_get_braces_for_array`). -/
 theorem old_empty_array_literal :
     (traverse (cfg0 .today) [.seq .array "'i'".toList []] 0).map Node.str
